@@ -87,8 +87,9 @@ class SenderStream(Monitor):
         self.cancelled = False
         self.tiles = 0
 
-    def note_cancel(self):
-        self.cancelled = True
+    def on_cancel(self, w, rec, side, wrong, tid) -> None:
+        if side == 0 and rec.ret is True:
+            self.cancelled = True
 
     def on_call(self, w, rec) -> None:
         if rec.ent != "a" or rec.hk != "src":
@@ -397,8 +398,14 @@ class IndicationMonitor(Monitor):
                     w.violate("C15.finished_fault_location", f"ind={fi[3]} fin_pdu={fins[0].info[4]}", "")
         if fins and not self.fin_emitted_b:
             self.fin_emitted_b = True
-            if bits & 8 and "finished" not in names and rec.exc is None:
-                w.violate("C15.missing", "b.dst finished at first Finished PDU emission", "")
+            # the indication belongs to the completion, which may have happened in an earlier call
+            # than the one that emits the Finished PDU
+            if bits & 8 and self.last_fin_ind_b is None and rec.exc is None:
+                w.violate("C15.missing", "b.dst finished at or before first Finished PDU emission", "")
+            elif bits & 8 and self.last_fin_ind_b is not None and "finished" not in names:
+                fi = self.last_fin_ind_b
+                if fi[2] != tuple(fins[0].info[1:4]):
+                    w.violate("C15.finished_params_receiver", f"ind={fi[2]} later_fin_pdu={fins[0].info[1:4]}", "")
 
     def on_end(self, w) -> None:
         if not self.strict:
